@@ -13,7 +13,7 @@ ASSUMPTIONS = ["BIE1 per Electrum: S = compressed(a*B); SHA-512(S) -> iv|kE|kM; 
 NSHARDS = {"quick": 32, "thorough": 64}
 BUDGET_S = {"quick": 200, "thorough": 1800}
 MIN_HITS = {
-    'quick': {"enc": 272, "exclude": 42, "ephemeral": 64, "flip": 199895, "flip_pub": 60720, "flip_mac": 69632, "flip_body": 60839, "wrong_key": 272, "len>=16384": 8},
+    'quick': {"enc": 336, "exclude": 74, "ephemeral": 64, "flip": 241929, "flip_pub": 69036, "flip_mac": 85762, "flip_body": 76411, "wrong_key": 336, "len>=16384": 8},
     'thorough': {"enc": 15504, "exclude": 840, "ephemeral": 4608, "flip": 11715673, "wrong_key": 15504, "len>=16384": 48},
 }
 EDGE = [1, 2, 3, (ec.N - 1) // 2, (ec.N + 1) // 2, ec.N - 2, ec.N - 1]
@@ -85,6 +85,21 @@ def cases(ctx):
             prev = blk
         m += gen.rbytes(r, r.choice([0, 5, 16]))
         yield {"k": "enc", "a": "%064x" % a, "b": "%064x" % b, "ca": True, "cb": True, "msg": m.hex(), "exclude": True, "mode": "encrypt", "other": "%064x" % r.randrange(1, ec.N), "seed": r.getrandbits(30), "crafted": True}
+    # the message IS a serialised envelope (forwarded / nested envelopes), of either inclusion mode
+    for i in range(8 if t else 2):
+        if not t and S % 4 != 1:
+            break
+        a, b = r.randrange(1, ec.N), r.randrange(1, ec.N)
+        inner, _ = ref_bie1(r.randrange(1, ec.N), ec.mul_g(r.randrange(1, ec.N)), gen.rbytes(r, r.choice([0, 7, 16])), bool(i & 1))
+        for exclude in (False, True):
+            yield {"k": "enc", "a": "%064x" % a, "b": "%064x" % b, "ca": True, "cb": True, "msg": inner.hex(), "exclude": exclude, "mode": "encrypt", "other": "%064x" % r.randrange(1, ec.N), "seed": r.getrandbits(30), "nested": True}
+    # envelopes whose LAST bytes look like text line ends / padding (0d 0a, 0a 0a, 0a, 0d, 20, 00): the messages were found by
+    # searching with the reference (keys 11..11 / 22..22, message "line-end-search-<n>"; about one in 65 536 for two bytes)
+    if S % 4 == 2 or t:
+        LE = {False: {"0d": 143, "0a": 188, "00": 268, "20": 341, "0a0a": 84155, "0d0a": 85480}, True: {"0a": 4, "20": 47, "0d": 196, "00": 333, "0d0a": 62481, "0a0a": 84097}}
+        for exclude in (False, True):
+            for tail, ctr in LE[exclude].items():
+                yield {"k": "enc", "a": "11" * 32, "b": "22" * 32, "ca": True, "cb": True, "msg": (b"line-end-search-%d" % ctr).hex(), "exclude": exclude, "mode": "encrypt", "other": "%064x" % r.randrange(1, ec.N), "seed": r.getrandbits(30), "tail": tail}
     for i in range(120 if t else 4):
         a, b = r.randrange(1, ec.N), r.randrange(1, ec.N)
         base = {"k": "enc", "a": "%064x" % a, "b": "%064x" % b, "ca": r.random() < 0.5, "cb": r.random() < 0.5, "msg": gen.rbytes(r, r.choice([0, 5, 16, 31, 32, 70])).hex(), "exclude": False, "other": "%064x" % r.randrange(1, ec.N), "seed": r.getrandbits(30)}
@@ -108,6 +123,12 @@ def judge(ctx, case):
         ctx.hit("exclude")
     if case.get("crafted"):
         ctx.hit("body_starts_with_a_valid_public_key")
+    if case.get("nested"):
+        ctx.hit("message_is_an_envelope")
+    if case.get("tail"):
+        ctx.hit("envelope_ends_in_" + case["tail"])
+        if not ref_bie1(a, ec.mul_g(b), msg, exclude)[0].hex().endswith(case["tail"]):
+            ctx.note("line-end search constant does not reproduce (reference changed?)")
     if len(msg) >= 16384:
         ctx.hit("len>=16384")
     if mode == "self":
@@ -207,7 +228,13 @@ def judge(ctx, case):
             ctx.viol("decryption with a wrong sender key returns plaintext", {})
     # tampering: every single-bit flip
     nbits = len(ser) * 8
-    positions = range(nbits) if len(msg) <= 48 else sorted(set(rnd.randrange(nbits) for _ in range(300)) | set(range(0, 37 * 8 if has_pub else 32)) | set(range(nbits - 33 * 8, nbits)))
+    if len(msg) <= 48:
+        positions = range(nbits)
+    elif len(msg) <= 70000:
+        positions = sorted(set(rnd.randrange(nbits) for _ in range(300)) | set(range(0, 37 * 8 if has_pub else 32)) | set(range(nbits - 33 * 8, nbits)))
+    else:
+        # very long messages: every flip ships the whole envelope again, so only a handful of positions (first / last block, MAC, a few random)
+        positions = sorted(set(rnd.randrange(nbits) for _ in range(6)) | {40 * 8 + 1, nbits - 33 * 8 - 3, nbits - 5, nbits - 250})
     pub_end = 37 if has_pub else 4
     for bit in positions:
         fl = bytearray(ser)
